@@ -28,11 +28,11 @@ PKG = os.path.dirname(os.path.abspath(jsonschema.__file__))
 # per validator: local definition, remote document, format predicate, instance
 VARIANTS = [
     {"T": {"type": "integer"}, "R": {"d": {"minimum": 2}}, "Hd": {"d": {"maximum": 2}},
-     "fmt": lambda s: s == "x", "inst": [1, "x", 2.5, "ay"]},
+     "fmt": lambda s: s == "x", "inst": [1, "x", 2.5, "ay"], "dis": "string"},
     {"T": {"type": "string"}, "R": {"d": {"maxLength": 1}}, "Hd": {"d": {"minLength": 2}},
-     "fmt": lambda s: s == "ay", "inst": [1, "x", "ay"]},
+     "fmt": lambda s: s == "ay", "inst": [1, "x", "ay"], "dis": "integer"},
     {"T": {"type": "number"}, "R": {"d": {"enum": [1, "x"]}}, "Hd": {"d": {"enum": [2.5, "a"]}},
-     "fmt": lambda s: False, "inst": ["x", 2.5, "a"]},
+     "fmt": lambda s: False, "inst": ["x", 2.5, "a"], "dis": "null"},
 ]
 
 
@@ -40,6 +40,8 @@ def schema_for(d, var):
     both = [{"$ref": "#/definitions/a"}, {"$ref": URL + "#/d"}, {"$ref": HURL + "#/d"}]
     item = {"pattern": "^a", "format": "f"}
     item["allOf" if d >= 4 else "extends"] = both
+    if d == 3:
+        item["disallow"] = [var["dis"]]       # same keyword, different type names, in every draft 3 variant
     return {"definitions": {"a": var["T"]}, "items": item}
 
 
@@ -64,7 +66,8 @@ _expected = {}
 def expected(d, k, short=False):
     """Errors of the reference-free equivalent (references written out by the designation model)."""
     if short:
-        return [e for e in expected(d, k) if e[2][0] < 2]      # the errors of the first two elements
+        n = 2 if short is True else short
+        return [e for e in expected(d, k) if e[2][0] < n]      # the errors of the first n elements
     if (d, k) not in _expected:
         var = VARIANTS[k]
         S = schema_for(d, var)
@@ -109,9 +112,12 @@ def interleavings(counts):
     yield from rec(list(counts), [])
 
 
+A_LEN = {"n": 4}
+
+
 def run_interleaving(d, ks, progs, order):
     vals = [make_validator(d, k) for k in ks]
-    its = [v.iter_errors(copy.deepcopy(VARIANTS[k]["inst"])) for (v, r), k in zip(vals, ks)]
+    its = [v.iter_errors(copy.deepcopy(VARIANTS[k]["inst"][:A_LEN["n"]])) for (v, r), k in zip(vals, ks)]
     got = [[] for _ in ks]
     taken = [0] * len(ks)
     state = ["run"] * len(ks)
@@ -133,7 +139,7 @@ def run_interleaving(d, ks, progs, order):
             state[i] = "raised"
     problems = []
     for i, k in enumerate(ks):
-        exp = expected(d, k)
+        exp = expected(d, k, A_LEN["n"])
         kind, n = progs[i]
         want = exp if kind == "exhaust" else exp[:n]
         if strip(got[i]) != want:
@@ -153,18 +159,18 @@ def part_a_configs(d, tier):
     combos = [(0, 1), (1, 2), (0, 2), (0, 1, 2)] if tier == "quick" else \
         [(0, 1), (1, 0), (1, 2), (0, 2), (0, 0), (0, 1, 2), (2, 1, 0)]
     for ks in combos:
-        plist = [programs(len(expected(d, k))) for k in ks]
+        plist = [programs(len(expected(d, k, A_LEN["n"]))) for k in ks]
         for progs in itertools.product(*plist):
-            if len(ks) == 3 and tier == "quick" and sum(steps_of(p) for p in progs) > 9:
+            if len(ks) == 3 and tier == "quick" and sum(steps_of(p) for p in progs) > 8:
                 continue
             yield ks, progs
 
 
 # ------------------------------------------------------------------ part B
-def bodies_for(d, ks):
+def bodies_for(d, ks, n=2):
     def mk(k):
         v, r = make_validator(d, k)
-        inst = copy.deepcopy(VARIANTS[k]["inst"][:2])
+        inst = copy.deepcopy(VARIANTS[k]["inst"][:n])
 
         def body():
             out = strip([ident(e) for e in v.iter_errors(inst)])
@@ -173,14 +179,56 @@ def bodies_for(d, ks):
     return [mk(k) for k in ks]
 
 
-def check_results(d, ks):
+CS_CANDIDATES = {
+    # one valid candidate per draft, small, and checked through a $ref of the metaschema
+    3: [{"extends": {"minLength": 1}}],
+    4: [{"minLength": 1}],
+    6: [{"minLength": 1}],
+    7: [{"minLength": 1, "required": ["a"]}],
+}
+CS_EXPECT = (True,)
+
+
+def cs_bodies(drafts):
+    """Thread bodies that run check_schema of different draft classes (the metaschemas use $ref)."""
+    def mk(d):
+        cls = _e1.CLS[d]
+
+        def body():
+            out = []
+            for cand in CS_CANDIDATES[d]:
+                try:
+                    cls.check_schema(copy.deepcopy(cand))
+                    out.append(True)
+                except exceptions.SchemaError:
+                    out.append(False)
+            return tuple(out)
+        return body
+    return [mk(d) for d in drafts]
+
+
+def cs_check(drafts):
+    def check(results):
+        for i, d in enumerate(drafts):
+            if results[i] != CS_EXPECT:
+                return {"thread": i, "draft": d, "got": results[i], "expected": CS_EXPECT}
+        return None
+    return check
+
+
+def check_results(d, ks, n=2):
     def check(results):
         for i, k in enumerate(ks):
             res = results[i]
-            if not isinstance(res, tuple) or res[0] == "EXC" or res[0] != expected(d, k, True) or res[1] != "":
-                return {"thread": i, "variant": k, "got": res, "expected": expected(d, k, True)}
+            if not isinstance(res, tuple) or res[0] == "EXC" or res[0] != expected(d, k, n) or res[1] != "":
+                return {"thread": i, "variant": k, "got": res, "expected": expected(d, k, n)}
         return None
     return check
+
+
+def blen(tier, bound):
+    """Number of array elements each thread validates: one when two preemptions are explored in the quick tier."""
+    return 1 if (tier == "quick" and bound >= 2) else 2
 
 
 def part_b_configs(tier):
@@ -190,9 +238,18 @@ def part_b_configs(tier):
     return [((0, 1), "call", 3), ((0, 1), "line", 2), ((0, 1, 2), "call", 2), ((1, 2), "line", 2)]
 
 
+def cs_configs(tier):
+    # (drafts whose check_schema run concurrently, granularity, bound); two preemptions are needed to get
+    # "A enters, B enters, A resolves" (one preemption lets B run to completion and clean up)
+    if tier == "quick":
+        return [((4, 7), "call", 2)]
+    return [((4, 7), "call", 2), ((3, 6), "call", 2), ((6, 4), "call", 2), ((4, 6, 7), "call", 1), ((7, 4), "line", 1)]
+
+
 def plan(ctx):
     units = []
     sizes = {}
+    A_LEN["n"] = 2 if ctx.tier == "quick" else 4
     for d in _e1.DRAFTS:
         for k in range(len(VARIANTS)):
             expected(d, k)
@@ -204,21 +261,32 @@ def plan(ctx):
     drafts_b = (7, 3) if ctx.tier == "quick" else _e1.DRAFTS
     for d in drafts_b:
         for bi, (ks, gran, bound) in enumerate(part_b_configs(ctx.tier)):
+            if ctx.tier == "quick" and d == 3 and bi > 0:
+                continue        # draft 3 (extends / disallow): two threads, call granularity, bound 2 only
             # root run to learn the number of scheduling points, then shard by first deviation
-            s = threads.Sched(bodies_for(d, ks), [], PKG, gran)
+            s = threads.Sched(bodies_for(d, ks, blen(ctx.tier, bound)), [], PKG, gran)
             _, pts = s.run()
             n = len(pts)
             sizes["partB_points_d%d_%s_%s" % (d, "+".join(map(str, ks)), gran)] = n
             chunk = max(1, n // (48 if bound >= 2 else 16))
             for lo in range(0, n, chunk):
                 units.append(("B", d, bi, lo, min(n, lo + chunk)))
+    for ci, (drafts, gran, bound) in enumerate(cs_configs(ctx.tier)):
+        sc = threads.Sched(cs_bodies(drafts), [], PKG, gran)
+        _, pts = sc.run()
+        n = len(pts)
+        sizes["checkschema_points_%s_%s" % ("+".join(map(str, drafts)), gran)] = n
+        chunk = max(1, n // 48)
+        for lo in range(0, n, chunk):
+            units.append(("CS", ci, lo, min(n, lo + chunk)))
     return {
         "units": units,
         "rule": ("part A: validators of 3 variants that share the base URI '', the reference strings, the remote "
                  "URL (different stores), the regex and the format name (different checkers); for every "
                  "combination of consumer programs (exhaust / take k then close) EVERY interleaving of their "
                  "next()/close() steps on fresh validators; part B: whole validations in 2-3 real threads under a "
-                 "baton scheduler, every schedule with <= bound preemptions at call (and line) granularity; each "
+                 "baton scheduler, every schedule with <= bound preemptions at call (and line) granularity, and "
+                 "check_schema of different draft classes in concurrent threads (the metaschemas use $ref); each "
                  "consumer must see exactly the errors of the reference-free equivalent schema and leave its "
                  "resolver's scope untouched; distinct schedules by construction; distinct_nontrivial = schedules "
                  "with at least one switch between consumers"),
@@ -230,6 +298,7 @@ def plan(ctx):
 
 
 def run_unit(unit, ctx):
+    A_LEN["n"] = 2 if ctx.tier == "quick" else 4
     viol, samples, outcomes = [], [], {}
     if unit[0] == "A":
         _, d, ci = unit
@@ -248,19 +317,35 @@ def run_unit(unit, ctx):
             if probs:
                 viol.append({"signature": "C18|interleaving|%d-iterators" % len(ks), "size": len(order),
                              "case": {"part": "A", "draft": d, "variants": list(ks), "programs": [list(p) for p in progs],
-                                      "order": list(order)}, "detail": probs[:2]})
+                                      "order": list(order), "elements": A_LEN["n"]}, "detail": probs[:2]})
             if n == 3:
                 samples.append({"part": "A", "draft": d, "variants": list(ks), "programs": [list(p) for p in progs],
                                 "order": list(order)})
         return {"evaluations": n, "nontrivial": nt, "violations": viol, "samples": samples, "outcomes": outcomes,
                 "counters": {"states": n, "transitions": steps, "traces_validated_against_impl": n,
                              "partA_interleavings": n}}
+    if unit[0] == "CS":
+        _, ci, lo, hi = unit
+        drafts, gran, bound = cs_configs(ctx.tier)[ci]
+        r = threads.explore(lambda: cs_bodies(drafts), cs_check(drafts), PKG, gran, bound, (lo, hi))
+        for choices, bad in r["problems"]:
+            viol.append({"signature": "C18|threads-check_schema|%s" % gran, "size": len(choices),
+                         "case": {"part": "CS", "drafts": list(drafts), "granularity": gran, "choices": choices},
+                         "detail": bad})
+        outcomes = {"cs-preemptions=%d" % k: v for k, v in r["by_preemptions"].items()}
+        nt = sum(v for k, v in r["by_preemptions"].items() if k > 0)
+        return {"evaluations": r["schedules"], "nontrivial": nt, "violations": viol, "samples": samples,
+                "outcomes": outcomes,
+                "counters": {"states": r["schedules"], "transitions": r["steps"],
+                             "traces_validated_against_impl": r["schedules"], "checkschema_schedules": r["schedules"]}}
     _, d, bi, lo, hi = unit
     ks, gran, bound = part_b_configs(ctx.tier)[bi]
-    r = threads.explore(lambda: bodies_for(d, ks), check_results(d, ks), PKG, gran, bound, (lo, hi))
+    nlen = blen(ctx.tier, bound)
+    r = threads.explore(lambda: bodies_for(d, ks, nlen), check_results(d, ks, nlen), PKG, gran, bound, (lo, hi))
     for choices, bad in r["problems"]:
         viol.append({"signature": "C18|threads|%s|%d-threads" % (gran, len(ks)), "size": len(choices),
-                     "case": {"part": "B", "draft": d, "variants": list(ks), "granularity": gran, "choices": choices},
+                     "case": {"part": "B", "draft": d, "variants": list(ks), "granularity": gran, "choices": choices,
+                              "elements": nlen},
                      "detail": bad})
     outcomes = {"preemptions=%d" % k: v for k, v in r["by_preemptions"].items()}
     nt = sum(v for k, v in r["by_preemptions"].items() if k > 0)
@@ -274,14 +359,21 @@ def run_unit(unit, ctx):
 
 
 def replay(case, ctx):
+    if case["part"] == "CS":
+        drafts = tuple(case["drafts"])
+        sc = threads.Sched(cs_bodies(drafts), case["choices"], PKG, case["granularity"])
+        results, points = sc.run()
+        bad = cs_check(drafts)(results)
+        return {"reproduced": bad is not None, "problem": bad}
     d, ks = case["draft"], tuple(case["variants"])
     if case["part"] == "A":
+        A_LEN["n"] = case.get("elements", A_LEN["n"])
         probs = run_interleaving(d, ks, [tuple(p) for p in case["programs"]], case["order"])
         return {"reproduced": bool(probs), "problems": probs}
     outs = []
     for _ in range(2):      # the same schedule twice: observations must be identical
-        s = threads.Sched(bodies_for(d, ks), case["choices"], PKG, case["granularity"])
+        s = threads.Sched(bodies_for(d, ks, case.get("elements", 2)), case["choices"], PKG, case["granularity"])
         results, points = s.run()
         outs.append((repr(results), len(points)))
-    bad = check_results(d, ks)(results)
+    bad = check_results(d, ks, case.get("elements", 2))(results)
     return {"reproduced": bad is not None, "problem": bad, "identical_replays": outs[0] == outs[1]}
